@@ -320,6 +320,19 @@ func genGE(cfg *config, r *rng, i int, s *sink) string {
 			off = r.float01() * 0.4 * tol
 			s.count("ge.line.bulge")
 		}
+		if r.chance(1, 10) && kind == "onl" {
+			// a long diagonal line at high latitude with a centimetre tolerance, and a position just
+			// inside or just beyond one of its ends: the three end-to-end distances must agree to
+			// better than the tolerance
+			lat = pick(r, []float64{60, 70, 80, -65, -75, 50}) + (r.float01()-0.5)*0.5
+			bearing = pick(r, []float64{45, 135, 225, 315, 30, 60, 200}) + (r.float01()-0.5)*10
+			length = (500 + r.float01()*500) * scale
+			lat2, lon2 = offsetPoint(lat, lon, bearing, length, radius)
+			tol = pick(r, []float64{0.01, 0.02, 0.05}) * scale
+			along = pick(r, []float64{-3 * tol, 2 * tol, length + 3*tol, length - 2*tol})
+			off = r.float01() * 0.3 * tol
+			s.count("ge.line.long_diagonal_ends")
+		}
 		side := 90.0
 		if r.bool() {
 			side = -90
